@@ -1,0 +1,150 @@
+//go:build verif
+
+package serf
+
+import (
+	"bufio"
+	"fmt"
+	"log"
+	"os"
+	"time"
+)
+
+// Hooks for the snapshotter, used only by the verification harness (/verif).
+// Compiled only with -tags verif.
+//
+// VerifSnap is a Snapshotter without its two goroutines: the harness performs
+// the iterations of stream()'s select loop itself, one at a time, by calling the
+// snapshotter's own unexported methods (processMemberEvent, processUserEvent,
+// processQuery, updateClock, tryAppend, compact). The few lines of stream() and
+// NewSnapshotter that are not methods are repeated here verbatim; the harness
+// also runs the real goroutine-driven NewSnapshotter on the same histories.
+
+type VerifSnap struct{ S *Snapshotter }
+
+// VerifNewSyncSnapshotter is NewSnapshotter without `go teeStream()` / `go stream()`.
+func VerifNewSyncSnapshotter(path string, minCompactSize int, rejoinAfterLeave bool,
+	logger *log.Logger, clock *LamportClock) (*VerifSnap, error) {
+	fh, err := os.OpenFile(path, os.O_RDWR|os.O_APPEND|os.O_CREATE, 0644)
+	if err != nil {
+		return nil, fmt.Errorf("failed to open snapshot: %v", err)
+	}
+	info, err := fh.Stat()
+	if err != nil {
+		fh.Close()
+		return nil, fmt.Errorf("failed to stat snapshot: %v", err)
+	}
+	offset := info.Size()
+	snap := &Snapshotter{
+		aliveNodes:       make(map[string]string),
+		clock:            clock,
+		fh:               fh,
+		buffered:         bufio.NewWriter(fh),
+		lastClock:        0,
+		lastEventClock:   0,
+		lastQueryClock:   0,
+		leaveCh:          make(chan struct{}),
+		logger:           logger,
+		minCompactSize:   int64(minCompactSize),
+		path:             path,
+		offset:           offset,
+		rejoinAfterLeave: rejoinAfterLeave,
+		waitCh:           make(chan struct{}),
+	}
+	if err := snap.replay(); err != nil {
+		fh.Close()
+		return nil, err
+	}
+	return &VerifSnap{S: snap}, nil
+}
+
+// Dispatch is stream()'s flushEvent closure.
+func (v *VerifSnap) Dispatch(e Event) {
+	s := v.S
+	if s.leaving {
+		return
+	}
+	switch typed := e.(type) {
+	case MemberEvent:
+		s.processMemberEvent(typed)
+	case UserEvent:
+		s.processUserEvent(typed)
+	case *Query:
+		s.processQuery(typed)
+	default:
+		s.logger.Printf("[ERR] serf: Unknown event to snapshot: %#v", e)
+	}
+}
+
+// Leave is the `case <-s.leaveCh` branch of stream().
+func (v *VerifSnap) Leave() {
+	s := v.S
+	s.leaving = true
+	if !s.rejoinAfterLeave {
+		s.aliveNodes = make(map[string]string)
+	}
+	s.tryAppend("leave\n")
+	if err := s.buffered.Flush(); err != nil {
+		s.logger.Printf("[ERR] serf: failed to flush leave to snapshot: %v", err)
+	}
+	if err := s.fh.Sync(); err != nil {
+		s.logger.Printf("[ERR] serf: failed to sync leave to snapshot: %v", err)
+	}
+}
+
+// Tick is the `case <-clockTicker.C` branch of stream().
+func (v *VerifSnap) Tick() { v.S.updateClock() }
+
+// Shutdown is the `case <-s.shutdownCh` branch of stream() with an empty streamCh.
+func (v *VerifSnap) Shutdown() {
+	s := v.S
+	s.updateClock()
+	if err := s.buffered.Flush(); err != nil {
+		s.logger.Printf("[ERR] serf: failed to flush snapshot: %v", err)
+	}
+	if err := s.fh.Sync(); err != nil {
+		s.logger.Printf("[ERR] serf: failed to sync snapshot: %v", err)
+	}
+	s.fh.Close()
+}
+
+// Compact calls compact() directly.
+func (v *VerifSnap) Compact() error { return v.S.compact() }
+
+// SetClock replaces the Lamport clock the snapshotter reads.
+func (v *VerifSnap) SetClock(c *LamportClock) { v.S.clock = c }
+
+// FlushPending reports whether lastFlush is still the zero time (a flush is due
+// at the next append and has not happened yet).
+func (v *VerifSnap) FlushPending() bool { return v.S.lastFlush.IsZero() }
+
+// SetFlushDue(true) makes the next appendLine see "more than flushInterval since
+// the last flush"; SetFlushDue(false) makes appendLine not see it for the next hour.
+func (v *VerifSnap) SetFlushDue(due bool) {
+	if due {
+		v.S.lastFlush = time.Time{}
+	} else {
+		v.S.lastFlush = time.Now().Add(time.Hour)
+	}
+}
+
+func (v *VerifSnap) Alive() map[string]string {
+	out := make(map[string]string, len(v.S.aliveNodes))
+	for k, a := range v.S.aliveNodes {
+		out[k] = a
+	}
+	return out
+}
+func (v *VerifSnap) Leaving() bool { return v.S.leaving }
+func (v *VerifSnap) Offset() int64 { return v.S.offset }
+
+// Buffered is the number of bytes pending in the bufio writer (-1: no writer).
+func (v *VerifSnap) Buffered() int {
+	if v.S.buffered == nil {
+		return -1
+	}
+	return v.S.buffered.Buffered()
+}
+
+// VerifSnapshotStreamLen is len(streamCh)+len(inCh) of a goroutine-driven snapshotter.
+func VerifSnapshotStreamLen(s *Snapshotter) int { return len(s.streamCh) + len(s.inCh) }
